@@ -20,17 +20,20 @@ def tok_expr(g, i, lang):
 
 
 def go_action(idx, r, plain=False):
-    if plain:
-        return '{ Steps++; if Steps > %d { panic("STEPLIMIT") }; $$ = (%s) %% %d }' % (LIMIT, ' + '.join(['%d*$%d' % (r['coef'][j], j + 1) for j in range(len(r['rhs'])) if r['coef'][j] != 0] + [str(r['c'])]), gram.MOD)
     expr = ' + '.join(['%d*$%d' % (r['coef'][j], j + 1) for j in range(len(r['rhs'])) if r['coef'][j] != 0] + [str(r['c'])])
-    return '{ Reds = append(Reds, %d*1000+Fetched); if len(Reds) > %d { panic("STEPLIMIT") }; nestHookR(); $$ = (%s) %% %d }' % (idx + 1, LIMIT, expr, gram.MOD)
+    # a rule whose action does not assign $$ : its value is the zero value (c = 0 and all coefficients 0 in the model's action)
+    assign = '' if r.get('noassign') else '; $$ = (%s) %% %d' % (expr, gram.MOD)
+    if plain:
+        return '{ Steps++; if Steps > %d { panic("STEPLIMIT") }%s }' % (LIMIT, assign)
+    return '{ Reds = append(Reds, %d*1000+Fetched); if len(Reds) > %d { panic("STEPLIMIT") }; nestHookR()%s }' % (idx + 1, LIMIT, assign)
 
 
 def ts_action(idx, r, plain=False):
-    if plain:
-        return '{ Steps++; if (Steps > %d) { throw new Error("STEPLIMIT") }; $$ = (%s) %% %d }' % (LIMIT, ' + '.join(['%d*$%d' % (r['coef'][j], j + 1) for j in range(len(r['rhs'])) if r['coef'][j] != 0] + [str(r['c'])]), gram.MOD)
     expr = ' + '.join(['%d*$%d' % (r['coef'][j], j + 1) for j in range(len(r['rhs'])) if r['coef'][j] != 0] + [str(r['c'])])
-    return '{ Reds.push(%d*1000+Fetched); if (Reds.length > %d) { throw new Error("STEPLIMIT") }; $$ = (%s) %% %d }' % (idx + 1, LIMIT, expr, gram.MOD)
+    assign = '' if r.get('noassign') else '; $$ = (%s) %% %d' % (expr, gram.MOD)
+    if plain:
+        return '{ Steps++; if (Steps > %d) { throw new Error("STEPLIMIT") }%s }' % (LIMIT, assign)
+    return '{ Reds.push(%d*1000+Fetched); if (Reds.length > %d) { throw new Error("STEPLIMIT") }%s }' % (idx + 1, LIMIT, assign)
 
 
 def fix_tags(g):
@@ -274,7 +277,10 @@ def run_i6(name, grammars, jobs, variants=ALL_VARIANTS, vet=False, race=False):
             os.makedirs(d)
             y = os.path.join(d, 'g.y')
             open(y, 'w').write(go_text(g, pkg, obj))
-            tasks.append((gname, vn, [yaccgo, 'generate', 'go'] + flags + [y, os.path.join(d, 'p.go')]))
+            # two of the four Go variants are generated together with the automaton diagram (-g): a side output that must not
+            # change the parser
+            extra = ['-g', os.path.join(d, 'graph.png')] if vn in ('gu', 'op') else []
+            tasks.append((gname, vn, [yaccgo, 'generate', 'go'] + flags + extra + [y, os.path.join(d, 'p.go')]))
         if 'ts' in variants:
             tj = [[m, p] for (m, p) in jobs.get(gname, []) if m in ('run', 'hist')]
             y = os.path.join(work, 'g%d.y' % gi)
